@@ -157,18 +157,21 @@ def single_source_linkmerge_inputs(doc) -> list[str]:
 
 
 def outputs_sharing_a_source(doc) -> list[str]:
+    """a step output referenced by two workflow outputs, at least one of them as a plain outputSource"""
     found = []
     for path, wf in _workflows(doc):
-        seen: dict[str, str] = {}
+        refs: dict[str, list] = {}
         for name, out in wf.get("outputs", {}).items():
-            out = _entry(out) if not isinstance(out, dict) else out
+            out = out if isinstance(out, dict) else {"outputSource": out}
             src = out.get("outputSource")
-            if isinstance(src, list) and len(src) == 1 and "linkMerge" not in out and "pickValue" not in out:
-                src = src[0]
-            if isinstance(src, str) and "pickValue" not in out and "/" in src:
-                if src in seen:
-                    found.append(f"{path}#{seen[src]}+{name}")
-                seen[src] = name
+            plain = isinstance(src, str) or (isinstance(src, list) and len(src) == 1 and "linkMerge" not in out)
+            plain = plain and "pickValue" not in out
+            for x in _aslist(src):
+                if "/" in x:
+                    refs.setdefault(x, []).append((name, plain))
+        for x, uses in refs.items():
+            if len(uses) > 1 and any(p for _, p in uses):
+                found.append(f"{path}#{'+'.join(n for n, _ in uses)}")
     return found
 
 
@@ -189,6 +192,17 @@ def nested_crossproduct_steps(doc) -> list[str]:
             if st.get("scatterMethod") == "nested_crossproduct"]
 
 
+def nested_crossproduct_over_inner_scatter(doc) -> list[str]:
+    found = []
+    for path, wf in _workflows(doc):
+        for sid, st in wf.get("steps", {}).items():
+            run = st.get("run")
+            if st.get("scatterMethod") == "nested_crossproduct" and isinstance(run, dict) and run.get("class") == "Workflow":
+                if any("scatter" in s2 for _, w2 in _workflows(run) for s2 in w2.get("steps", {}).values()):
+                    found.append(f"{path}/{sid}")
+    return found
+
+
 def kind_for(pid: str, case: dict, symptom: str, detail: str) -> str:
     """Stable root-cause bucket: a recorded shape + its symptom, else the bare symptom."""
     doc = case["doc"]
@@ -200,7 +214,7 @@ def kind_for(pid: str, case: dict, symptom: str, detail: str) -> str:
         if symptom == "output-mismatch" and duplicate_sources(doc):
             return f"{pid}:duplicate-source-collapsed"
         if symptom == "output-mismatch" and outputs_sharing_a_source(doc):
-            return f"{pid}:outputs-sharing-a-source-first-is-null"
+            return f"{pid}:outputs-sharing-a-source"
         if symptom == "sf-fails-only" and single_source_linkmerge_outputs(doc) and "WorkflowDefinitionException" in detail:
             return f"{pid}:single-source-linkMerge-output-rejected"
         if symptom in ("sf-fails-only", "output-mismatch") and single_source_linkmerge_inputs(doc):
@@ -211,8 +225,16 @@ def kind_for(pid: str, case: dict, symptom: str, detail: str) -> str:
             return f"{pid}:nested-array-default"
         if symptom in ("sf-hangs", "output-mismatch") and constant_steps_in_subworkflows(doc):
             return f"{pid}:constant-step-in-subworkflow-runs-once"
+        if symptom in ("sf-fails-only", "output-mismatch") and nested_crossproduct_over_inner_scatter(doc):
+            return f"{pid}:nested-crossproduct-over-inner-scatter"
         if symptom == "output-mismatch" and nested_crossproduct_steps(doc) and "[]" in detail:
             return f"{pid}:nested-crossproduct-empty-array"
+    if symptom == "sf-fails-only":
+        import re
+
+        m = re.search(r"first error type: (\w+)", detail)
+        if m:
+            return f"{pid}:sf-fails-only:{m.group(1)}"
     return f"{pid}:{symptom}"
 
 
@@ -244,7 +266,8 @@ def known_shape_cases(seed: int = 1) -> list[dict]:
 
     inc = ets["affine"]["doc"]
     rev = ets["rev_int"]["doc"]
-    sleeper = T.sleeper_tool(1)["doc"]
+    # the unused step must still be running when the outputs are complete, also on a loaded machine: 8 s
+    sleeper = T.sleeper_tool(8)["doc"]
 
     # --- F1: unused slow step (top level / scattered / inside a sub-workflow / next to a CommandLineTool)
     base = {"class": "Workflow", "inputs": {"a": {"type": "int"}, "xs": {"type": _arr("int")}},
@@ -371,6 +394,19 @@ def known_shape_cases(seed: int = 1) -> list[dict]:
     add("nested-crossproduct-empty-array", nc, {"xs": [], "ys": [1, a]})
     add("nested-crossproduct-empty-array", nc, {"xs": [], "ys": []})
 
+    # --- nested_crossproduct over a sub-workflow that contains a scatter
+    inner = {"class": "Workflow", "inputs": {"k": {"type": "int"}, "j": {"type": "int"}, "xs": {"type": _arr("int")}},
+             "outputs": {"o": {"type": _arr("int"), "outputSource": "s/o"}, "p": {"type": "int", "outputSource": "t/o"}},
+             "steps": {"s": {"run": inc, "in": {"a": {"source": "xs"}}, "out": ["o"], "scatter": "a"},
+                       "t": {"run": inc, "in": {"a": {"source": "k"}}, "out": ["o"]}}}
+    ncs = {"class": "Workflow", "inputs": {"ks": {"type": _arr("int")}, "js": {"type": _arr("int")}, "xs": {"type": _arr("int")}},
+           "outputs": {"o": {"type": _arr(_arr(_arr("int"))), "outputSource": "w/o"},
+                       "p": {"type": _arr(_arr("int")), "outputSource": "w/p"}},
+           "steps": {"w": {"run": inner, "in": {"k": {"source": "ks"}, "j": {"source": "js"}, "xs": {"source": "xs"}},
+                           "out": ["o", "p"], "scatter": ["k", "j"], "scatterMethod": "nested_crossproduct"}}}
+    add("nested-crossproduct-over-inner-scatter", ncs, {"ks": [1, 2], "js": [3], "xs": [a]})
+    add("nested-crossproduct-over-inner-scatter", ncs, {"ks": [1, 2], "js": [3, 4], "xs": []})
+
     # --- two workflow outputs with the same outputSource
     so = {"class": "Workflow", "inputs": {"a": {"type": "int"}},
           "outputs": {"o0": {"type": "int", "outputSource": "s/o"}, "o1": {"type": "int", "outputSource": "s/o"}},
@@ -379,5 +415,10 @@ def known_shape_cases(seed: int = 1) -> list[dict]:
     v = copy.deepcopy(so)
     v["outputs"]["o0"]["type"] = ["null", "int"]
     v["outputs"]["o2"] = {"type": "int", "outputSource": "s/o"}
+    add("outputs-sharing-a-source", v, {"a": a})
+    v = copy.deepcopy(so)
+    v["steps"]["t"] = {"run": ets["maybe"]["doc"], "in": {"a": {"source": "a"}}, "out": ["o"]}
+    v["outputs"] = {"o0": {"type": _arr("int"), "outputSource": ["s/o", "t/o"], "pickValue": "all_non_null"},
+                    "o1": {"type": "int", "outputSource": "s/o"}}
     add("outputs-sharing-a-source", v, {"a": a})
     return cases
